@@ -272,7 +272,7 @@ def step(ctx, c, twin, dtypes, hist, kind, n, span, op, optag, opval_factory, ta
             return False
         candidates = before['index'] if kind == 'container' else list(c.__dict__.get('names', before['index']))
         near = [v for v in candidates if v.lower() == target.lower() or (target.lower().startswith(v.lower()) and len(target) == len(v) + 1)]
-        if near and not any(f"'{v}'" in msg for v in near):
+        if near and not isinstance(getattr(type(c), target, None), property) and not any(f"'{v}'" in msg for v in near):
             ctx.violation('strict-near-miss-not-reported', f'{kind}: refusal message does not suggest the closest variable: {msg!r}', case)
             return False
     if strict_now and op == 'newattr' and target in before['attrs'] and twin is not None and target in snap(twin)['attrs']:
@@ -320,7 +320,7 @@ def choose(rng, c, n, span, op):
     if op == 'add_attr':
         return rng.choice(['note', 'A', 'span', 'memo']), None
     if op == 'newattr':
-        return rng.choice(['a', 'Aa', 'note2', 'b', 'Bb', 'c_', 'note', 'memo', 'note', 'memo']), None
+        return rng.choice(['a', 'Aa', 'note2', 'b', 'Bb', 'c_', 'note', 'memo', 'note', 'memo', 'copy', 'solve', 'LAGS', 'NAMES', 'eval', 'size', 'reindex', 'to_dataframe', 'ENDOGENOUS']), None
     return None, None
 
 
